@@ -232,9 +232,9 @@ Proof.
   eapply spec_conseq.
   - apply (spec_for_n_pot F 16 16 K_cell (fun st => 2 * Z.of_N (snd st))%Z 262144%Z
              (fun _ st => cap_ok (snd st))); try (unfold K_cell; lia).
-    + intros _ st H. unfold cap_ok in H. lia.
-    + intros i [sl cap0] Hi HP. cbn [snd] in *. apply spec_strlist_cell; auto.
-    + lia.
+    + intros i [sl cap0] Hi HP. cbn [snd] in *.
+      eapply spec_conseq; [apply spec_strlist_cell; auto|intros; split; [lia|assumption]|].
+      unfold cap_ok in HP. lia.
     + exact Hcap.
   - intros [sl cap'] n HP. cbn [snd] in *. unfold sz_string. cbn [prealloc].
     split; [lia|]. split; [lia|auto].
@@ -282,8 +282,6 @@ Proof.
       destruct (Hf ub Hl2 Hw2) as (u & -> & _). cbn [lift bind].
       eapply (spec_bind _ _ _ 0%Z); [apply spec_alloc|lia|]. intros _ n3 ->.
       apply spec_ret; [lia|]. split; [lia|exact I].
-    + lia.
-    + exact I.
   - intros sl k _. cbn [prealloc]. split; [nia|lia].
   - cbn [prealloc]. nia.
 Qed.
@@ -300,4 +298,63 @@ Lemma spec_floatlist_read F cp :
 Proof.
   unfold floatlist_read.
   apply (spec_fixed_list F cp S_flist_u32 S_flist_f64 8 be_u64 18446744073709551616 8); [apply be_u64_ok|lia|lia].
+Qed.
+
+(** ** StrListDecoder.ReadBytes: the record is kept whole in d.buf, whose doubling is paid by
+    the potential 2*cap - 5*|acc| *)
+Definition rb_inv (st : bytes * N) : Prop :=
+  (4 <= length (fst st))%nat /\ 4 <= snd st /\ snd st <= 2 * N.of_nat (length (fst st)) + 131080.
+Definition rb_phi (st : bytes * N) : Z := (2 * Z.of_N (snd st) - 5 * Z.of_nat (length (fst st)))%Z.
+
+Lemma spec_strlist_rb_cell F count i st : rb_inv st ->
+  spec F 16 (fun st' => - 16 + rb_phi st' - rb_phi st)%Z (262160 - rb_phi st)%Z
+       (strlist_rb_cell count i st)
+       (fun st' n1 => (1 <= n1)%nat /\ rb_inv st').
+Proof.
+  destruct st as [acc cap]. unfold rb_inv, rb_phi. cbn [fst snd]. intros (Ha & Hc & Hcap).
+  unfold strlist_rb_cell.
+  destruct (ensure_buf cap (N.of_nat (length acc) + 2)) as [cap1 c1] eqn:E1.
+  assert (Hc0 : 0 < cap) by lia.
+  destruct (ensure_buf_spec _ _ _ _ Hc0 E1) as (A1 & A2 & A3 & A4).
+  eapply (spec_bind _ _ _ 0%Z); [apply spec_alloc|lia|]. intros _ n0 ->.
+  replace (N.of_nat (length acc) + 2 <=? cap1) with true by (symmetry; apply N.leb_le; lia).
+  eapply (spec_bind _ _ _ 0%Z); [apply spec_rdf|lia|].
+  intros [lb e] n1 (Hn & Hw & Hx). cbn [fst snd] in *.
+  destruct Hx as [[-> Hl]|[[-> [-> Hn0]]|[-> Hl]]]; [|sfail|sfail].
+  destruct (be_u16_pad_ok lb Hl Hw) as (l & -> & Hlb). cbn [lift bind].
+  destruct (ensure_buf cap1 (N.of_nat (length acc) + 2 + l)) as [cap2 c2] eqn:E2.
+  assert (Hc1 : 0 < cap1) by lia.
+  destruct (ensure_buf_spec _ _ _ _ Hc1 E2) as (B1 & B2 & B3 & B4).
+  eapply (spec_bind _ _ _ 0%Z); [apply spec_alloc|lia|]. intros _ n2 ->.
+  replace (N.of_nat (length acc) + 2 + l <=? cap2) with true by (symmetry; apply N.leb_le; lia).
+  eapply (spec_bind _ _ _ 0%Z); [apply spec_rdf|lia|].
+  intros [d e2] n3 (Hn3 & Hw3 & Hx3). cbn [fst snd] in *.
+  assert (Hlen : length (acc ++ lb ++ d) = (length acc + 2 + length d)%nat)
+    by (rewrite !app_length; lia).
+  destruct Hx3 as [[-> Hl3]|[[-> [-> Hn03]]|[-> Hl3]]]; cbn [ioerr_is_eof andb] in *.
+  - apply spec_ret; cbn [fst snd]; rewrite Hlen; [lia|]. split; [lia|]. lia.
+  - destruct (i =? count - 1).
+    + apply spec_ret; cbn [fst snd]; rewrite Hlen; cbn [length] in *; [lia|]. split; [lia|]. lia.
+    + sfail.
+  - sfail.
+Qed.
+
+Lemma spec_strlist_read_bytes F :
+  spec F 16 (fun _ => 262160)%Z 262200%Z (strlist_read_bytes F) (fun _ n => (4 <= n)%nat).
+Proof.
+  unfold strlist_read_bytes.
+  eapply (spec_bind _ _ _ 0%Z); [apply spec_rdf|lia|].
+  intros [hb e] n1 (Hn & Hw & Hx). cbn [fst snd] in *.
+  destruct Hx as [[-> Hl]|[[-> [-> Hn0]]|[-> Hl]]]; [|sfail|sfail].
+  rewrite pad_exact by auto.
+  destruct (be_u32_ok hb Hl Hw) as (count & -> & Hcb). cbn [lift bind].
+  eapply (spec_bind _ _ _ (262160 - rb_phi (hb, 4%N))%Z).
+  - apply (spec_for_n_pot F 16 16 0%Z rb_phi 262160%Z (fun _ st => rb_inv st)); try lia.
+    + intros i st Hi HP. eapply spec_conseq; [apply spec_strlist_rb_cell; auto| |lia].
+      intros a n [H1 H2]. split; [lia|auto].
+    + unfold rb_inv. cbn [fst snd]. lia.
+  - unfold rb_phi. cbn [fst snd]. lia.
+  - intros [acc cap] n (Ha & Hc & Hcap). unfold rb_phi in *. cbn [fst snd] in *.
+    eapply (spec_bind _ _ _ 0%Z); [apply spec_alloc|lia|]. intros _ n0 ->.
+    apply spec_ret; [lia|lia].
 Qed.
